@@ -103,7 +103,7 @@ func c01Scenarios(tier string) []*SeqScenario {
 	var scs []*SeqScenario
 	if tier == "quick" {
 		alpha := append(putOps([]int{0, 1, 3, 4}, []int{0, 1, 2}), removeOps([]int{0, 1, 3, 4})...)
-		alpha = append(alpha, Op{Kind: OpFlush}, Op{Kind: OpReads})
+		alpha = append(alpha, Op{Kind: OpPut, K: 0, V: 4}, Op{Kind: OpPut, K: 1, V: 4}, Op{Kind: OpFlush}, Op{Kind: OpReads})
 		for _, c := range quickConfigs() {
 			scs = append(scs, &SeqScenario{Prop: "C01", Name: "c01-quick", Cfg: c, Alphabet: alpha, Depth: 4, Nontrivial: sharedBucketNontrivial})
 		}
